@@ -662,8 +662,12 @@ func (g *gen) op() Op {
 	case k < eventTo:
 		// the event catches up, repeats, or (rarely) is older than the processed epoch
 		e := g.epoch
-		if g.r.p(15) && e > 0 {
+		switch k := g.r.n(100); {
+		case k < 15 && e > 0:
 			e = uint64(g.r.n(int(e) + 1))
+		case k < 40:
+			// the event is ahead of the epoch source: the GC's clock says "expired" where the metabase's does not yet
+			e += uint64(1 + g.r.n(2))
 		}
 		g.gcur = e
 		return Op{K: "event", E: e}
